@@ -7,6 +7,9 @@
         Cholesky:  ((shape (l ...)))                      shape = ((n0 rows) (n1 cols))
         LDL^T:     ((shape (l ...) (d ...)))
         QR:        ((qshape (q ...) rshape (r ...)))      qshape = ((n0 rows) (n1 rows))
+   Outside the language (bad case, both sides): square Rat Cholesky of more than 4 rows and Rat QR needing
+   more than one reflection — the polynomial sqrt stand-in makes the exact rationals explode (a
+   3x2 QR takes the extracted model more than a minute); Fp has no such limit.
    `sqrt` is the fixed polynomial of Model/Num.v on both sides: the factors are compared exactly
    as computation skeletons (same field operations, same sqrt calls, same comparisons). *)
 From Coq Require Import List ZArith NArith Bool.
@@ -31,6 +34,9 @@ Definition run_c08 (args : list sx) : sx :=
       match dpair dnat dnat names, dnat rows, dnat cols with
       | Some names, Some rows, Some cols =>
           if Nat.eqb rows 0 || Nat.eqb cols 0 || Nat.eqb (fst names) (snd names) then bad_case else
+          if Z.eqb ty 0 && ((Z.eqb op 1 && Nat.ltb 4 rows && Nat.eqb rows cols) ||
+                            (Z.eqb op 3 && Nat.leb cols rows && Nat.ltb 1 (Nat.min (rows - 1) cols)))
+          then bad_case else
           with_ty ty (fun R ops =>
             match dlist (ndec ops) data with
             | Some d => if Nat.eqb (length d) (rows * cols)
